@@ -14,10 +14,13 @@ def c14(tier):
 
 def c02(tier):
     return [
+        mint_h('VHarnessSwapC02', 'swap: <= 2 inputs, <= 2 outputs; 1+1+1 arbitrary rows', must_reach=('swap-accepted', 'swap-rejected')),
+        mint_h('VHarnessMeltQuoteC02', 'melt quote: real invoice < 2^50 msat or garbage, optional MPP, 1 mint quote + 1 melt quote arbitrary rows', must_reach=('melt-quote-accepted', 'melt-quote-refused')),
+        mint_h('VHarnessMeltC02', 'melt: 1..2 genuine inputs, quote amount/reserve/MPP symbolic (< 2^50), backend script <= 2 answers', must_reach=('payment-attempted', 'melt-no-payment')),
         Harness('VHarnessAmountChecked', 'cashu', ['cashu/zz_verif_cashu.go'], bounds='<= 4 outputs, amounts full 64 bit', must_reach=('ok', 'overflow')),
     ]
 
-MINT_FILES = ['mint/zz_verif_env.go', 'mint/zz_verif_swap.go', 'mint/storage/sqlite/zz_verif_db.go']
+MINT_FILES = ['mint/zz_verif_env.go', 'mint/zz_verif_swap.go', 'mint/zz_verif_melt.go', 'mint/zz_verif_quotes.go', 'mint/storage/sqlite/zz_verif_db.go']
 MINT_MODELS = ('std', 'crypto', 'json', 'sql', 'mint')
 MINT_ASSUME = COMMON_ASSUME + [
     'keysets of the harness mint hold the denominations {1, 2, 2^63} only (the 60-entry tables are cut; the arithmetic kernels are checked at full width separately)',
